@@ -515,6 +515,64 @@ def ctor_misuse(types, res, seed):
                 continue
             res.outcomes["accepted:" + name] += 1
             res.violations.append(common.violation("C11.refused", "accepted-silently:" + name, f, cid, "constructor with %r did not raise" % sorted(kw)))
+        # (c) an explicit offset that does not lie inside the buffer it is given with (negative: numpy would count from the
+        # end; running past the capacity): refused before anything is written
+        own = place.traced("np", 13 + size + 64, default_alignment=1)
+        own.update_from_buffer(own.allocate(13), place.poison(13, seed + 2))
+        lv = own.allocate(size + 32)
+        own.update_from_buffer(lv, place.poison(size + 32, seed + 3))
+        before = place.whole(own)
+        free0, cap0, log0 = own.get_free(), own.capacity, len(own.log)
+        outside = [dict(_buffer=own, _offset=-16), dict(_buffer=own, _offset=-size - 8), dict(_buffer=own, _offset=own.capacity + 8)]
+        if size >= 8:
+            outside.append(dict(_buffer=own, _offset=own.capacity - size + 8))
+        for kw in outside:
+            res.cases += 1
+            res.transitions += 1
+            res.events["x-offset"] += 1
+            cid = dict(type=t, type_str=xt.show(t), misuse="x-offset-outside", offset=int(kw["_offset"]), capacity=int(own.capacity))
+            f = cons.feats(t, "ramp", "py", "x-offset-outside")
+            f["misuse"] = "x-offset-outside"
+            f["offset_side"] = "negative" if kw["_offset"] < 0 else "past-capacity"
+            try:
+                xt.construct(t, arg, **kw)
+            except Exception as e:
+                res.oracles["raised"] += 1
+                if place.whole(own) != before or own.get_free() != free0 or own.capacity != cap0 or len(own.log) != log0:
+                    res.violations.append(common.violation("C11.no-side-effect", "buffer-touched-by-refused-constructor:x-offset-outside", f, cid, "offset %d of a buffer of %d bytes: refused after bytes / allocator state changed" % (kw["_offset"], own.capacity)))
+                else:
+                    res.outcomes["refused-cleanly:x-offset-outside"] += 1
+                continue
+            res.outcomes["accepted:x-offset-outside"] += 1
+            res.violations.append(common.violation("C11.refused", "accepted-silently:x-offset-outside", f, cid, "object of %d bytes accepted at offset %d of a buffer of %d bytes" % (size, kw["_offset"], own.capacity)))
+        if t[0] == "U" and v is not None:
+            # a stand-alone union reference built from a member OBJECT (living in some buffer) with an explicit offset and
+            # no buffer of its own: refused, and the buffer of the member object is not touched
+            mt, mv = t[1][v[0]], v[1]
+            mb = place.traced("np", 13 + xt.layout_size(mt, mv) + 64, default_alignment=1)
+            mb.update_from_buffer(mb.allocate(13), place.poison(13, seed + 1))
+            mobj = xt.construct(mt, xt.to_py(mt, mv), _buffer=mb)
+            before = place.whole(mb)
+            free0, cap0, log0 = mb.get_free(), mb.capacity, len(mb.log)
+            for kw in (dict(_offset=8), dict(_offset=0), dict(_offset=np.int64(16))):
+                res.cases += 1
+                res.transitions += 1
+                res.events["x-offset"] += 1
+                cid = dict(type=t, type_str=xt.show(t), misuse="x-offset", kwargs=sorted(kw), argument="member-object")
+                f = cons.feats(t, "ramp", "xobj", "x-offset")
+                f["misuse"] = "x-offset"
+                f["argument"] = "member-object"
+                try:
+                    xt.build(t)(mobj, **kw)
+                except Exception as e:
+                    res.oracles["raised"] += 1
+                    if place.whole(mb) != before or mb.get_free() != free0 or mb.capacity != cap0 or len(mb.log) != log0:
+                        res.violations.append(common.violation("C11.no-side-effect", "buffer-touched-by-refused-constructor:x-offset", f, cid, "bytes/allocator state of the member object's buffer changed"))
+                    else:
+                        res.outcomes["refused-cleanly:x-offset"] += 1
+                    continue
+                res.outcomes["accepted:x-offset"] += 1
+                res.violations.append(common.violation("C11.refused", "accepted-silently:x-offset", f, cid, "union reference built from a member object with %r and no buffer did not raise" % sorted(kw)))
     res.states += len(types)
     res.nontrivial += len(types)
 
